@@ -19,6 +19,7 @@ const (
 	Pass Action = iota
 	Drop
 	Dup
+	Fail // the Write returns an error (EMSGSIZE-like); nothing is delivered
 )
 
 // Tap is called for every write accepted by an end, before delivery, under
@@ -101,6 +102,13 @@ func (timeoutErr) Timeout() bool   { return true }
 func (timeoutErr) Temporary() bool { return true }
 
 var _ net.Error = timeoutErr{}
+
+// ErrSend is what a Write returns when the tap answers Fail.
+var ErrSend error = &net.OpError{Op: "write", Net: "mem", Err: os.NewSyscallError("sendto", errMsgSize{})}
+
+type errMsgSize struct{}
+
+func (errMsgSize) Error() string { return "message too long" }
 
 // ErrTimeout is what a Read returns at its deadline; it also satisfies os.ErrDeadlineExceeded checks loosely.
 var ErrTimeout error = timeoutErr{}
@@ -221,6 +229,9 @@ func (e *End) Write(p []byte) (int, error) {
 	l.mu.Unlock()
 	if gone && e.stream {
 		return 0, io.ErrClosedPipe
+	}
+	if act == Fail && !e.stream {
+		return 0, ErrSend
 	}
 	return len(p), nil
 }
